@@ -17,7 +17,7 @@ Definition model (c:T) : outcome result :=
   match mk_gene isos with Some g => assign_float P absd arm g (mkRead rex pa) | None => Raises 9%N end.
 Definition check (c:T) : bool := let '(_, _, _, _, _, _, out) := c in outcome_eqb res_eqb (model c) out.
 (* the output specification of C01 (Assigner.judge) with EVERY isoform of the gene tried as the source the read may follow, and the
-   negative clause; applied when the read has no polyA/polyT signal (a tail away from the 3' end is outside the property) *)
+   negative clause (polyA-aware: Assigner.judge_pa with the external polyA / polyT position; reads with an internal polyA signal are not judged) *)
 Definition no_polya (pa:polya) : bool := (pa_ext_a pa =? -1) && (pa_ext_t pa =? -1) && (pa_int_a pa =? -1) && (pa_int_t pa =? -1).
 (* ... and when every exon and intron of the gene and of the read is longer than delta (shorter features are the subject of the C19
    findings profile-short-feature / profile-shadowed-match) *)
@@ -27,10 +27,13 @@ Definition prop (c:T) : bool :=
   match out with
   | Raises _ => false
   | Ok (ty, ms) =>
-    negb (no_polya pa) || negb (longer (p_delta P) rex && forallb (fun t => longer (p_delta P) (i_exons t)) isos) ||
+    negb ((pa_int_a pa =? -1) && (pa_int_t pa =? -1)) || negb (longer (p_delta P) rex && forallb (fun t => longer (p_delta P) (i_exons t)) isos) ||
     (let ann := map (fun t => (i_id t, i_exons t)) isos in
+     let strands := map (fun t => (i_id t, i_strand t)) isos in
+     let po := mkPO (pa_ext_a pa) (pa_ext_t pa) in
      let rep := map fst ms in
-     assignment_ok P ann (mkRC rex None ty rep) && forallb (fun t => assignment_ok P ann (mkRC rex (Some (i_id t)) ty rep)) isos)
+     let ok c := match judge_pa P ann strands c po with Bad _ => false | _ => true end in
+     ok (mkRC rex None ty rep) && forallb (fun t => ok (mkRC rex (Some (i_id t)) ty rep)) isos)
   end.
 """
 EXC = {"IndexError": 1, "AssertionError": 3, "ZeroDivisionError": 4, "KeyError": 5, "TypeError": 6, "ValueError": 7}
@@ -179,7 +182,8 @@ Definition codes (c:T) : list Z :=
   match out with
   | Raises _ => [99]
   | Ok (ty, ms) => let ann := map (fun t => (i_id t, i_exons t)) isos in let rep := map fst ms in
-                   vcode (judge P ann (mkRC rex None ty rep)) :: map (fun t => vcode (judge P ann (mkRC rex (Some (i_id t)) ty rep))) isos
+                   let strands := map (fun t => (i_id t, i_strand t)) isos in let po := mkPO (pa_ext_a pa) (pa_ext_t pa) in
+                   vcode (judge_pa P ann strands (mkRC rex None ty rep) po) :: map (fun t => vcode (judge_pa P ann strands (mkRC rex (Some (i_id t)) ty rep) po)) isos
   end.
 (* the isoforms whose profiles are compatible with the read (containing, overlapping, intron profile equal in the read's range) *)
 Definition compat (c:T) : list Z :=
